@@ -17,18 +17,27 @@ RULE = (
     "environment for arity <= 2; and about 90 syntactic forms (operators, "
     "in / is forms, indexing, slicing, element and member assignment, method "
     "and pipeline calls, for / comprehension / spread / destructuring forms, "
-    "if / while / error / catch). quick: arity <= 2 exhaustive and a seeded "
+    "if / while / error / catch). Extremes: every function (arity <= 3) and "
+    "form with at least one argument from a second pool of values any "
+    "program can produce - decimal('inf'), -inf, nan, +-1e300, 5e-324, "
+    "+-2^63, 10^18, the day numbers just outside the calendar, the first and "
+    "last date, a date with a time of day - combined with nine ordinary "
+    "values. quick: arity <= 2 exhaustive and a seeded "
     "sample of arity 3; thorough: everything. Oracle: a value that is a "
-    "proper language value, or CklRuntimeError carrying a language value, or "
-    "CklSyntaxError (text-evaluating built-ins), within 2 s (confirmed alone "
+    "proper language value, or CklRuntimeError carrying a language value "
+    "(a CklSyntaxError out of a text-evaluating built-in is a finding: catch "
+    "cannot intercept it), within 2 s (confirmed alone "
     "with 20 s). Non-trivial = distinct (function or form, argument kinds) "
     "that got past argument binding."
 )
 ASSUMPTIONS = [
     "non-secure interpreter; cwd and HOME are scratch directories; stdin is "
     "a two-line string",
-    "the pool's largest int is 3, so time-outs mean loops without progress, "
-    "not big outputs",
+    "the base pool's largest int is 3, so time-outs mean loops without "
+    "progress, not big outputs; in the extremes part a time-out or "
+    "MemoryError of a call that was given 2^63, -2^63, 10^18 or a day "
+    "number of millions is counted as excluded (resource use proportional to "
+    "the number asked for), never as a finding",
     "open findings are identified by <function or form>|<exception class or "
     "BADVALUE or TIMEOUT>|<innermost repository frame>",
 ]
@@ -75,6 +84,22 @@ FORMS = [
     "for [x, y, z] in A do z end", "for [x, y, z] in entries A do z end",
     "def [x, y, z] = A; z", "def x = 1; def y = 2; def z = 3; [x, y, z] = A; z",
     "(fn(a, b = 2, c = 3) c)(...A)",
+    # keys / values / entries in every comprehension form, nested loops
+    "[[x, y] for x in keys A also for y in values B]",
+    "[[x, y] for x in values A also for y in entries B]",
+    "[[x, y] for x in entries A also for y in keys B]",
+    "<<[x, y] for x in values A also for y in values B>>",
+    "[[x, y] for x in values A for y in keys B]",
+    "<<[x, y] for x in keys A for y in entries B>>",
+    "<<x for x in values A>>", "<<x for x in entries A>>",
+    "<<<x => 1 for x in values A>>>",
+    "<<<x[0] => x[1] for x in entries A>>>",
+    "for x in A do for x in B do x end end",
+    "for x in A do for y in B do for x in A do y end end end",
+    "for [x, y] in entries A do for [x, y] in entries B do y end end",
+    "[x for x in A if x in B]", "for x in A do if x == B then break; end",
+    "for x in A do continue end",
+    "while TRUE do for x in A do break end; break end",
     # control
     "if A then 1 else 2", "if B then 1 elif A then 2", "while A do break end",
     "error A", "do error B catch A 1 end", "do error A catch all 2 end",
@@ -158,11 +183,26 @@ def verdict(out, label):
         return Finding(f"{label}|BADVALUE", out[1])
     if out[0] == "timeout":
         return Finding(f"{label}|TIMEOUT", "no result within the budget")
+    if out[0] == "syntax":
+        # the source text of the call / form itself is fixed and valid, so a
+        # syntax error comes from a built-in that evaluates text: `catch`
+        # cannot intercept it
+        return Finding(f"{label}|SYNTAXERROR",
+                       "a syntax error (which catch cannot intercept) "
+                       "instead of a runtime error")
     return None
 
 
 def prop(case):
     budget = float(os.environ.get("VF_CASE_BUDGET", "20"))
+    if case.get("kind") == "fuzz":
+        out, label = run_fuzz_case(case, budget)
+        if out[0] == "missing":
+            return None
+        f = verdict(out, label)
+        if f is not None:
+            f.signature += "|generated"
+        return f
     out, label = run_case(case, budget)
     if out[0] == "missing":
         return None
@@ -264,8 +304,283 @@ def part_forms(part, shard, nshards, sample3):
     sw.close()
 
 
+# ---- generated argument values (part_fuzz): source text any program can write
+RICH_STRINGS = [
+    # digit runs of every length, date-like and almost date-like texts
+    "'1'", "'12'", "'1234567'", "'12345678'", "'123456789'", "'2020010112'",
+    "'20200101120000'", "'20200101120000123'", "'20201301'", "'20200230'",
+    "'00000000'", "'99999999'", "'2020-01-01'", "'20200101 12'",
+    # interpolation / format specifications
+    "'{x}'", "'{x#zz}'", "'{0#5.2.1}'", "'{1+}'", "'{'", "'}'", "'{}'",
+    "'{{0}}'", "'{0}{1}{2}'", "'{0#-5}'", "'{0#05.1}'", "'{0#x}'",
+    "'{0#.}'", "'{#}'", "'{def}'", "'{error 1}'", "'{0#08x}'",
+    # source text
+    "'1 +'", "'def'", "'('", "'fn(x) x'", "'[1,'", "'1 2'", "'<<<'",
+    "'require Nope'", "'while FALSE do 1 end'", "'x = 1'", "'checkerlang_secure_mode'",
+    # regular expressions
+    "'('", "'[a-'", "'a{2,1}'", "'*'", "'a|'", "'(?P<n>a)'", "'\\\\'",
+    "'a*?'", "'(a)(b)\\\\3'", "'.'", "'^$'",
+    # JSON
+    "'{\"a\": 1}'", "'[1, 2'", "'{\"a\":'", "'nul'", "'1e999'", "'NaN'",
+    "'Infinity'", "'\"\\\\u12\"'", "'[[[[[[[[[[1]]]]]]]]]]'", "'{\"a\": {\"b\": null}}'",
+    "'-'", "'0x10'", "'1_0'", "' 12 '", "'1.5.2'", "'+5'", "'1e5'",
+    # formats for dates / numbers
+    "'yyyy-MM-dd'", "'HH:mm:ss'", "'yyyyMMddHHmmssSSS'", "'%Y'", "'%'",
+    "'dd.MM.yyyy HH'", "'y'", "''", "' '", "'\n'", "'a\nb\r\nc'",
+    "'TRUE'", "'true'", "'NULL'", "'äöü€😀'", "'a,b,,c'", "','", "'ab' * 50",
+]
+RICH_NUMBERS = ["0", "1", "-1", "2", "7", "-7", "31", "32", "33", "63", "64",
+                "65", "255", "256", "1000", "65536", "-65536", "0.5", "-0.5", "1e-7 * 1" if False
+                else "0.0000001", "1000000000000000.0", "123456789.125",
+                "2.5", "100", "-100"]
+RICH_COLLECTIONS = [
+    "[1, 'a']", "[NULL]", "[[1], 2]", "[1, 2.5, 'a', NULL]", "['b', 'a']",
+    "[3, 1, 2, 1, 3]", "[[1, 'a'], [2, 'b']]", "[[1, 2, 3]]", "[[]]",
+    "[[1, 2], [3]]", "['a', ['b', ['c']]]", "[fn(x) x]", "[1, [2, [3, [4]]]]",
+    "[TRUE, FALSE]", "[date('20200101'), date('20190101')]", "[1] * 7",
+    "<<'a', 1>>", "<<[1]>>", "<<<<1>>>>" if False else "<< <<1>> >>",
+    "<<NULL, TRUE, 2.5>>", "<<<1 => 'a'>>>", "<<<'a' => [1]>>>",
+    "<<<'a' => 1, 'b' => 2, 'c' => 3>>>", "<<<[1] => 1>>>",
+    "<<<'x' => <<<'y' => 1>>> >>>", "<<<'lst' => 1, 'start' => 2>>>",
+    "<*a = 1, b = 'x'*>", "<*f = fn(self) 1*>", "<*a = <*b = 1*>*>",
+    "<*_proto_ = <*a = 1*>, b = 2*>", "<**>", "'abc'", "'a'",
+]
+RICH_FUNCS = [
+    "fn(a, b) a", "fn(a) 'x'", "fn(a, b) 'x'", "fn(a...) a...",
+    "fn(x) error 'boom'", "fn(x) NULL", "fn() 1", "fn(a, b) 2.5", "compare",
+    "identity", "length", "fn(a, b) [a]", "fn(x) x > 1", "fn(x) TRUE",
+    "fn(a, b) a - b", "fn(a, b, c) a", "fn(x) [x, x]", "fn(a, b) a + b",
+    "fn(x) fn(y) x", "string", "fn(x) 1 / 0",
+]
+RICH_OTHER = ["NULL", "TRUE", "FALSE", "//[a-z]+//", "//^a.c$//", "//(a)|b//",
+              "date('20200229')", "date('20201231235959')",
+              "date('19000101')", "str_input('l1\nl2\n\nl4')",
+              "str_input('')", "str_output()", "decimal('inf')",
+              "decimal('nan')"]
+
+
+def gen_arg(ch):
+    k = ch.weighted([(6, "s"), (4, "n"), (4, "c"), (2, "f"), (2, "o"),
+                     (2, "pool")])
+    if k == "s":
+        return ch.choice(RICH_STRINGS)
+    if k == "n":
+        return ch.choice(RICH_NUMBERS)
+    if k == "c":
+        return ch.choice(RICH_COLLECTIONS)
+    if k == "f":
+        return ch.choice(RICH_FUNCS)
+    if k == "o":
+        return ch.choice(RICH_OTHER)
+    return sweep.POOL_SRC[ch.int(0, sweep.N - 1)]
+
+
+def run_fuzz_case(case, budget=2.0):
+    """case: {"kind": "fuzz", "fn": label | None, "form": str | None,
+    "args": [source, ...], "names": [name | None, ...], "spread": int | None}"""
+    sw = sweeper(True)
+    vals = []
+    for a in case["args"]:
+        o = sw.run_src(a, {}, budget)
+        if o[0] != "value":
+            return ("missing",), "?"
+        vals.append(o[1])
+    bindings = {f"p{k}": v for k, v in enumerate(vals)}
+    if case.get("fn"):
+        fn = None
+        for label, f, names in sw.functions:
+            if label == case["fn"]:
+                fn = f
+                break
+        if fn is None:
+            return ("missing",), case["fn"]
+        bindings["f"] = fn
+        parts_ = []
+        for k in range(len(vals)):
+            nm = case["names"][k]
+            if case.get("spread") == k:
+                parts_.append(f"...p{k}")
+            elif nm:
+                parts_.append(f"{nm} = p{k}")
+            else:
+                parts_.append(f"p{k}")
+        src = "f(" + ", ".join(parts_) + ")"
+        label = case["fn"]
+    else:
+        src = form_src(case["form"], len(vals))
+        label = "form:" + case["form"]
+    out = sw.run_src(src, bindings, budget)
+    if out[0] not in ("value", "error", "syntax"):
+        sw.reset_cwd()
+    return out, label
+
+
+def describe_fuzz(case):
+    if case.get("fn"):
+        parts_ = []
+        for k, a in enumerate(case["args"]):
+            nm = case["names"][k]
+            parts_.append(("..." if case.get("spread") == k else "") +
+                          (f"{nm} = " if nm else "") + a)
+        return f"{case['fn']}({', '.join(parts_)})"
+    return f"{case['form']}  with  " + ", ".join(case["args"])
+
+
+# functions whose argument is a path or a command: generated strings stay
+# relative and harmless, but there is no reason to run generated source text
+# through a shell
+NO_FUZZ = {"execute", "run"}
+
+
+def part_fuzz(part, n):
+    from vf.gen.chooser import TapeChooser, tapes
+    sw = sweeper(True)
+    fns = [(label, names) for label, f, names in sw.functions
+           if label.split("->")[-1].split(":")[-1] not in NO_FUZZ]
+    state = {"timed_out": set()}
+
+    def body(tape):
+        ch = TapeChooser(tape)
+        if ch.bool(0.75):
+            label, names = fns[ch.int(0, len(fns) - 1)]
+            declared = [x for x in names if not x.endswith("...")]
+            rest = any(x.endswith("...") for x in names)
+            top = 3 if rest else min(3, len(declared))
+            k = ch.int(1, max(1, top)) if ch.bool(0.8) else ch.int(0, 4)
+            args = [gen_arg(ch) for _ in range(k)]
+            argnames = [None] * k
+            spread = None
+            if k and ch.bool(0.2):
+                j = ch.int(0, k - 1)
+                argnames[j] = ch.choice(declared + ["zz"]) if declared \
+                    else "zz"
+            elif k and ch.bool(0.08):
+                spread = ch.int(0, k - 1)
+            case = {"kind": "fuzz", "fn": label, "args": args,
+                    "names": argnames, "spread": spread}
+        else:
+            form = ch.choice(FORMS)
+            args = [gen_arg(ch) for _ in range(form_arity(form))]
+            case = {"kind": "fuzz", "form": form, "args": args}
+        part.count()
+        out, label = run_fuzz_case(case)
+        if out[0] == "missing":
+            return None
+        part.nontriv((label, tuple(case["args"]),
+                      tuple(case.get("names") or ())))
+        part.cls("fuzz:" + out[0], describe_fuzz(case)
+                 if part.evaluations % 50 == 0 else None)
+        f = verdict(out, label)
+        if f is None:
+            return None
+        f.signature += "|generated"
+        f.detail = describe_fuzz(case) + " -> " + f.detail
+        if out[0] == "timeout":
+            if label in state["timed_out"]:
+                part.timeouts += 1
+                return None
+            state["timed_out"].add(label)
+            out2, _ = run_fuzz_case(case, 20.0)
+            if out2[0] != "timeout":
+                part.timeouts += 1
+                return None
+        # collect-and-continue: one bucket per function / exception / frame
+        part.collect(f, case)
+        return None
+    part.hyp(tapes(64), body, n, shrink=False)
+    sw.close()
+
+
+SMALL = [0, 4, 5, 7, 11, 14, 18, 20, 23]      # companions of an extreme value
+
+
+def ext_tuples(arity):
+    ext = list(range(sweep.N, sweep.N_EXT))
+    if arity == 1:
+        for e in ext:
+            yield [e]
+    elif arity == 2:
+        for e in ext:
+            for o in SMALL + ext:
+                yield [e, o]
+                if o not in ext:
+                    yield [o, e]
+    elif arity == 3:
+        for e in ext:
+            for o in (4, 11, 14):
+                yield [e, o, o]
+                yield [o, e, o]
+                yield [o, o, e]
+            yield [e, e, e]
+
+
+def _handle_ext(part, case, state):
+    """Like _handle, but a time-out or MemoryError of a call that was given
+    a huge int is a resource matter (range(10^18)), not a finding."""
+    big = any(a in sweep.EXT_BIGINT for a in case["args"])
+    part.count()
+    out, label = run_case(case, 0.5 if big else 2.0)
+    kinds = tuple(sweep.POOL_SRC[i] if i >= sweep.N else sweep.POOL_KIND[i]
+                  for i in case["args"])
+    if out[0] != "missing":
+        part.nontriv((label, kinds))
+    if big and (out[0] == "timeout" or
+                (out[0] == "host" and out[1] == "MemoryError")):
+        part.excluded["by-construction:huge-int-resource"] += 1
+        return
+    f = verdict(out, label)
+    if f is None:
+        return
+    f.signature += "|extreme"
+    f.detail = describe(case) + " -> " + f.detail
+    if out[0] == "timeout":
+        if part.judge(Finding(f.signature), case) is None:
+            return
+        if label in state["timed_out"]:
+            part.timeouts += 1
+            return
+        state["timed_out"].add(label)
+        if not sweep.confirm_timeout(PROPERTY, case):
+            part.timeouts += 1
+            return
+        f.detail = describe(case) + " -> no result within 20 s in a " \
+            "fresh process"
+    part.collect(f, case)
+    part.cls("finding-bucket:" + f.signature.split("|")[1])
+
+
+def part_extremes(part, shard, nshards):
+    """Functions and forms fed non-finite and huge decimals, ints beyond 64
+    bits, day numbers outside the calendar and the first / last date."""
+    sw = sweeper(True)
+    state = {"timed_out": set()}
+    idx = 0
+    for label, fn, names in sw.functions:
+        idx += 1
+        if idx % nshards != shard:
+            continue
+        declared = len([x for x in names if not x.endswith("...")])
+        top = 3 if any(x.endswith("...") for x in names) else min(3, declared)
+        for arity in range(1, top + 1):
+            for args in ext_tuples(arity):
+                _handle_ext(part, {"kind": "call", "fn": label, "args": args},
+                            state)
+    for k, form in enumerate(FORMS):
+        if k % nshards != shard:
+            continue
+        for args in ext_tuples(form_arity(form)):
+            _handle_ext(part, {"kind": "form", "form": form, "args": args},
+                        state)
+    part.cls("extremes-swept", ", ".join(sweep.EXT_SRC))
+    part.exhaustive = True
+    sw.close()
+
+
 def parts(tier, seed):
-    ps = []
+    ps = [(f"extremes-{i}", part_extremes, {"shard": i, "nshards": 12})
+          for i in range(12)]
+    ps += [(f"fuzz-{i}", part_fuzz,
+            {"n": 6000 if tier == "quick" else 150000}) for i in range(8)]
     if tier == "quick":
         ps += [(f"fn-{i}", part_functions,
                 {"shard": i, "nshards": 10, "max_arity": 3, "sample3": 0.05})
